@@ -98,8 +98,40 @@ def _values_hash(name, n, seed) -> str:
 PRISTINE: Pristine | None = None
 
 
+def _check_model(case: dict) -> Result:
+    """'Selectable on the command line': the same generator reached through ModelInstance (what --game-generator / --seed build).
+    Two identically seeded instances hand out identical game sequences, equal to GENERATORS[name](n, default_rng(seed))."""
+    import numpy as np
+    from incomplete_cooperative.generators import GENERATORS
+    from incomplete_cooperative.run.model import ModelInstance
+    from .. import libgames
+    res = Result()
+    name, n, seed = case["name"], case["n"], case["seed"]
+    w = f"{name} n={n} seed={seed} via ModelInstance"
+    seqs = []
+    for _ in range(2):
+        libgames.reseed_module_state(seed)
+        inst = ModelInstance(number_of_players=n, game_generator=name, seed=seed)
+        seqs.append([np.asarray(inst.game_generator_fn().get_values(), dtype=float) for _ in range(case["draws"])])
+    libgames.reseed_module_state(seed)
+    rng = np.random.default_rng(seed)
+    direct = [np.asarray(GENERATORS[name](n, rng).get_values(), dtype=float) for _ in range(case["draws"])]
+    if libgames.ignores_seed(name):
+        res.label("documented-seed-exception")
+    else:
+        if not all(np.array_equal(a, b) for a, b in zip(seqs[0], seqs[1])):
+            res.fail(f"not-deterministic :: {w}: two identically seeded ModelInstance objects draw different games")
+        elif not all(np.array_equal(a, b) for a, b in zip(seqs[0], direct)):
+            res.fail(f"seed-not-honoured :: {w}: games differ from GENERATORS[name](n, default_rng(seed))")
+    res.nontrivial = len({float(x) for x in seqs[0][0]}) >= 3
+    res.label("via-ModelInstance", f"n={n}", "seed=0" if seed == 0 else "seed!=0")
+    return res
+
+
 @guarded
 def check_case(case: dict) -> Result:
+    if case.get("kind") == "model":
+        return _check_model(case)
     import numpy as np
     from incomplete_cooperative.generators import GENERATORS
     from .. import libgames
@@ -171,6 +203,7 @@ def plan(tier: str) -> list[dict]:
     out = []
     for k in range(shards):
         out.append({"names": names[k::shards], "seeds": seeds, "cost": 3})
+    out.append({"mode": "model", "examples": 60 if tier == "quick" else 1500, "cost": 3})
     return out
 
 
@@ -187,6 +220,14 @@ def run_shard(spec: dict, ctx: Ctx) -> None:
 
 
 def _run(spec: dict, ctx: Ctx, tier: str) -> None:
+    if spec.get("mode") == "model":
+        from .. import libgames
+        names = [x for x in libgames.names() if max_n_for(x, "quick") >= 4]
+        strat = st.builds(lambda name, n, seed, draws: {"kind": "model", "name": name, "n": n, "seed": seed, "draws": draws},
+                          st.sampled_from(names), st.integers(3, 4),
+                          st.one_of(st.sampled_from([0, 0, 1, 2**32, 2**32 - 1]), st.integers(0, 2**40)), st.integers(1, 3))
+        ctx.run_given(strat, check_case, spec["examples"])
+        return
     visited = 0
     for j, name in enumerate(spec["names"]):
         for n in range(3, max_n_for(name, tier) + 1):
